@@ -15,6 +15,14 @@ CommentedMap / CommentedSeq, OrderedDict) on either side in every combination (`
 counters `combo:<kind>:<existing class><-<incoming class>` show which pairs reached a mergeable branch. For single
 merge / set_defaults calls the model's ghost trace is compared with the named paths read off the incoming mapping on
 the harness side with the real formatter (`impl_c10.flat_named`).
+FAILED operations and what follows them: an operation marked "swallow" that raises does not end the sequence (swallow: True,
+retry, failure handler): the context it left is compared with the model's (`Merge.runOpsS` / `mergeRecS`: entries before
+the failing one written, the failing one not at all) and the later operations run on it. Reference monitor
+(`impl_c10.ref_apply`): the property text read entry by entry on deep copies with the real formatter as primitive - each
+incoming key and value formatted once, as a whole, against the context as merged so far, BEFORE its entry writes; a default
+for a path that exists evaluates nothing - outcome (returns / error class) and context (after success AND after a failure)
+must be the reference's; `atomic_monitor`: a list path is never left half-extended. Side-effecting !py ({"pysrc":
+"free_ports.pop()"}: no model side) is judged by the reference monitor alone.
 """
 from .. import common
 from .. import impl_c10 as I
@@ -34,7 +42,14 @@ ASSUMPTIONS = [
     'CPython identity facts mirrored by the heap model: t + () and () + t hand back the exact-tuple operand',
     'Python key equality 1 == True == 1.0 is outside the modelled domain (never generated)',
     'formatting expressions use the simple grammar of PypyrModel/Fmt.lean',
-    'on an exception only the error name is compared (the partially merged context is still monitored)',
+    'an operation that raises: error name + (when marked swallow, tree level) the context it leaves are compared with the '
+    'model; the heap-level model ends a sequence at the first failure (cases with a swallowed failure: tree level only)',
+    'a swallowed RecursionError / the model running out of fuel ends the sequence on both sides',
+    'reference monitor: harness/impl_c10.ref_apply is a second executable reading of the property text (trusted); it '
+    'uses the implementation`s own formatter and dict / list / set operations',
+    'side-effecting !py defaults / values ({"pysrc": …}) are outside PyEval.lean: no model side; frame / table / '
+    'defaults monitors stand back for such cases (a needed evaluation may legitimately change other paths), the '
+    'reference monitor decides which evaluations were due',
 ]
 
 MODEL_OP = {'merge': 'merge.merge', 'defaults': 'merge.defaults', 'step-merge': 'merge.step',
@@ -129,9 +144,14 @@ def check_cases(env, res, cases, known_sig=None):
         res.case(case)
         seq = case['op'] == 'seq'
         if seq:
-            res.count('seq:' + '>'.join(o['op'] for o in case['ops']))
+            res.count('seq:' + '>'.join(o['op'] + ('!' if o.get('swallow') else '') for o in case['ops']))
         if 'ok' in mout:
             mobs = {'ok': canon_wire(mout['ok']['ctx'])}
+            if mout['ok'].get('errs'):
+                # operations marked "swallow" that failed: index + error name, the sequence went on with the
+                # context as the failed operation left it (model: Merge.runOpsS)
+                mobs['errs'] = mout['ok']['errs']
+                res.count('seq:swallowed-failures=%d' % len(mobs['errs']))
             for w in mout['ok']['trace']:
                 res.count('trace:' + ('write' if w[1] else 'descend') + f':depth{len(w[0])}')
             # the model's ghost trace against the named paths read off the incoming mapping with the REAL formatter
@@ -168,6 +188,16 @@ def run(env, res):
                 'set_defaults, step; kind clashes between subclasses; random: context tree + incoming tree derived from it with '
                 'expressions referring to keys merged earlier in the same call, 45 % as sequences whose later incoming '
                 'mappings are derived from earlier ones, 40 % with random classes on the containers at value positions; '
+                'whole-entry family: incoming lists / tuples / sets with >= 2 members where a LATER member refers to the '
+                'path it is merged into ({seen}, !py len(seen), one level down) or cannot be formatted (missing key, !py '
+                'NameError, failure inside a nested member, failing key, failure two levels down, mid-mapping) x merge / '
+                'step-merge x {alone, swallowed + value supplied + again, retried 3x}, failing defaults; inert-default '
+                'family: 9 existing paths (given / None / empty str / 0 / False / [] / {} / list / int) x 9 defaults whose '
+                'evaluation is not inert (unformattable str / !py / list / mapping / jsonify / tuple, !py free_ports.pop() '
+                'alone / in a list / in a mapping) x set_defaults / step, nested under an existing mapping, key '
+                'expression, needed side-effecting defaults evaluated exactly once; random: 12-30 % of incoming lists get a '
+                'later self-referring or failing member, 30 % of defaults on existing paths are unformattable, every op of '
+                'a random sequence is marked swallow with p = 0.5; '
                 'non-trivial = distinct case that reached both sides; every '
                 'case also through the heap-level model; alias streams: monitors only (known findings)')
     for case, sig in I.alias_cases():
